@@ -42,19 +42,28 @@ def replay(ob):
     pat = rp['alias']
     size = int(m.get('X.size', 120))
     rng = np.random.default_rng(0)
-    cands = [size, size + (size % 2), size + 1]
+    import itertools
+    labels = sorted(set(pat))
+    unknown = [l + sfx for l in labels for sfx in ('.c_contig', '.f_contig') if l + sfx not in m]
+    cands = []
+    for n in [size, size + (size % 2), size + 1]:
+        for combo in itertools.product([True, False], repeat=len(unknown)):
+            cands.append((n, dict(zip(unknown, combo))))
     last = None
-    for n in cands:
+    for n, extra in cands:
         if n <= 0:
             continue
+        mm = dict(m)
+        mm.update(extra)
+        flags = {l: (bool(mm[l + '.c_contig']), bool(mm[l + '.f_contig'])) for l in labels}
+        one_d = all(c and f for c, f in flags.values())
+        if not one_d and any(c and f for c, f in flags.values()):
+            continue        # both flags on a >= 2-d array needs a degenerate shape: not concretised
         arrs = {}
         shape = None
         ok = True
-        for l in sorted(set(pat)):
-            c = bool(m.get(l + '.c_contig', True))
-            f = bool(m.get(l + '.f_contig', True))
-            if shape is not None and len(shape) == 1:
-                c = f = True
+        for l in labels:
+            c, f = flags[l]
             a, shp = _layout_array(np, n, dt, c, f, rng)
             if a is None or (shape is not None and shp != shape):
                 ok = False
